@@ -78,5 +78,271 @@ Theorem C03_born_invisible :
 Proof. intros R rO rI radd rmul rsub ropp Rth. exact (born_invisible R rO rI radd rmul rsub ropp Rth). Qed.
 Print Assumptions C03_born_invisible.
 
-Example C03_example : List.length (filter is_two gen_handoff) = 16%nat.
-Proof. vm_compute. reflexivity. Qed.
+
+(* ======================================================================================================================
+   5. LIFTING to whole noise-free runs (Model/NoiseFreeRun.v, Proofs/NoiseFreeRun*.v).
+
+   Split of the argument — which part is which:
+   (R) by REFLECTION over the model regenerated from circuit.py + gates.py on every run: the choice table `choose2` /
+       `choose1` / the symbolic textbook tables of Model/NoiseFreeRun.v are what the code does (C03_table_is_the_code):
+       placement on [lower; higher], slot of the control, which phases are written and by how many quarter turns, the
+       SPECIFIC global phase, and the matrix identity  traced matrix = gph (P(new) x P(new))^dag K (P(old) x P(old))  for
+       all real phases (C03_table_sound: equality of complex matrices under every valuation).
+   (G) RING-GENERIC theorems (any commutative ring, any n, any program, any initial state): `compile` is a function of
+       that table; the item list `run_items` = framed matrices at the current frame on [lower; higher]; its semantics is
+       the frame simulator's (C03_run_is_framed), satisfies the invariant against the textbook circuit on
+       (control, target) (C03_run_invariant), and has the ideal Born weights (C03_noise_free_born_index); the builder
+       model of BinaryCircuit appends exactly run_items and BinaryBackend returns its semantics (C03_builder_backend_run,
+       with C02_bin_spec), the builder's symbolic phases are the frame (C03_builder_phases_track); for the layered
+       classes the complete layers of a run mean the same item list (C03_run_layers_sem) and are well-formed input for
+       the C01 backend theorems (C03_run_layers_wf), hence C03_noise_free_born_layered.
+   (C) the instance at Coquelicot's complex numbers with the very constants of (R): C03_noise_free_born_C,
+       C03_noise_free_born_layered_C (all hypotheses discharged).
+   (S) the seam (R)/(G): C03_token_is_framed, C03_token_is_framed1 — the complex matrix expression of (R) is entry by
+       entry the function-valued token `framed2 ...` / `framed1 ...` of (G) at R = C.
+   NOT one theorem (correspondence / other properties): the simulator's loop from Qiskit instructions to method calls on internal indices (layout, delay,
+   barrier, measure: C08 / C14 + call-sequence correspondence); the layered builder `lstep` producing `run_layers`
+   (C11 model + correspondence); marginalisation and key order (C14). *)
+Require Import QG.Model.NoiseFreeRun QG.Proofs.NoiseFreeRun QG.Proofs.NoiseFreeRunRefl QG.Proofs.NoiseFreeRunLayered QG.Proofs.NoiseFreeRunBuilder.
+Require Import QG.Model.Backends QG.Proofs.BackendsSpec QG.Model.Builders QG.Model.Sparse QG.Proofs.OptimizerSem QG.Proofs.SparseApply QG.Base.Res.
+
+(* (R) the table is the code: all 28 relevant traced records (16 two-qubit, X / SX / Rz of the four class variants); the
+       index class contributes its 4 + 2 + 1 *)
+Theorem C03_table_is_the_code :
+  forallb record_ok gen_handoff = true /\
+  List.length (filter (fun h => is_index h && relevant h) gen_handoff) = 7%nat /\
+  List.length (filter relevant gen_handoff) = 28%nat.
+Proof. exact table_is_the_code. Qed.
+Print Assumptions C03_table_is_the_code.
+
+Theorem C03_tables_are_textbook :
+  mexpr_eqb cf (tab_mexpr CX01t) CX01 && mexpr_eqb cf (tab_mexpr CX10t) CX10 &&
+  mexpr_eqb cf (tab_mexpr ECR01t) ECR01 && mexpr_eqb cf (tab_mexpr ECR10t) ECR10 &&
+  mexpr_eqb cf (tab_mexpr Xt) Xm && mexpr_eqb cf (tab_mexpr SXt) SXm = true.
+Proof. exact tables_are_textbook. Qed.
+Print Assumptions C03_tables_are_textbook.
+
+Theorem C03_table_sound : forall h, In h gen_handoff -> forall k, kind2_of (h_meth h) = Some k ->
+  forall rho, interpM rho (traced_matrix h) = interpM rho (expected_two h k (choose2 k (h_lt h))).
+Proof. exact table_is_the_code_sound. Qed.
+Print Assumptions C03_table_sound.
+
+(* (G) ring-generic.  K : consts R A names i, 1/sqrt2, e^{-i pi/4}, e^{-3i pi/4} and, per rz angle, e^{i theta} and
+       e^{-i theta/2} with their inverses; consts_ok: i*i = -1 and the named inverses are inverses. *)
+Theorem C03_run_is_framed :
+  forall (R : Type) (rO rI : R) (radd rmul : R -> R -> R) (ropp : R -> R) (A : Type) (K : consts R A)
+         (p : list (NoiseFreeRun.instr A)) (psi : state R),
+  sem R radd rmul (run_items R rO rI radd rmul ropp A K p) psi
+  = s_psi R (fold_left (nf_step R rO rI radd rmul ropp A K) p (s_one R rI psi)).
+Proof. exact run_is_framed. Qed.
+Print Assumptions C03_run_is_framed.
+
+(* one step of the run is FrameSim's sim_step on the compiled operation (frame and state; the inverse frame too except
+   for rz, where sim_step does not update it and nf_step does) *)
+Theorem C03_nf_step_is_sim_step :
+  forall (R : Type) (rO rI : R) (radd rmul : R -> R -> R) (ropp : R -> R) (A : Type) (K : consts R A)
+         (s : FrameSim.sstate R) (x : NoiseFreeRun.instr A),
+  let o := compile R rO rI radd rmul ropp A K (s_f R s) (s_fi R s) x in
+  s_f R (nf_step R rO rI radd rmul ropp A K s x) = s_f R (sim_step R rI radd rmul s o) /\
+  s_psi R (nf_step R rO rI radd rmul ropp A K s x) = s_psi R (sim_step R rI radd rmul s o) /\
+  match x with NoiseFreeRun.NRz _ _ => True | _ => s_fi R (nf_step R rO rI radd rmul ropp A K s x) = s_fi R (sim_step R rI radd rmul s o) end.
+Proof. exact nf_step_sim. Qed.
+Print Assumptions C03_nf_step_is_sim_step.
+
+(* along a run the inverse frame stays the inverse, so every compiled operation meets FrameSim's side conditions *)
+Theorem C03_run_frames_ok :
+  forall (R : Type) (rO rI : R) (radd rmul rsub : R -> R -> R) (ropp : R -> R),
+  ring_theory rO rI radd rmul rsub ropp eq ->
+  forall (A : Type) (K : consts R A), consts_ok R rI rmul ropp A K ->
+  forall (n : nat) (p : list (NoiseFreeRun.instr A)) (psi0 : state R), Forall (wf_instr n) p ->
+  let s := fold_left (nf_step R rO rI radd rmul ropp A K) p (s_one R rI psi0) in
+  (forall j, rmul (s_f R s j) (s_fi R s j) = rI) /\
+  (forall x, wf_instr n x -> wf_op R rI rmul n s (compile R rO rI radd rmul ropp A K (s_f R s) (s_fi R s) x)).
+Proof.
+  intros R rO rI radd rmul rsub ropp Rth A K OK n p psi0 W. split.
+  - exact (run_frames_ok R rO rI radd rmul rsub ropp Rth A K OK n p psi0 W).
+  - intros x Wx. exact (compiled_wf R rO rI radd rmul rsub ropp Rth A K OK n _ x Wx (run_frames_ok R rO rI radd rmul rsub ropp Rth A K OK n p psi0 W)).
+Qed.
+Print Assumptions C03_run_frames_ok.
+
+(* frame(b) * simulated(b) = g * ideal(b): ideal = textbook gates, two-qubit gates on the ordered pair (control, target),
+   rz = diag(a, a e); g = product of the unit constants *)
+Theorem C03_run_invariant :
+  forall (R : Type) (rO rI : R) (radd rmul rsub : R -> R -> R) (ropp : R -> R),
+  ring_theory rO rI radd rmul rsub ropp eq ->
+  forall (A : Type) (K : consts R A), consts_ok R rI rmul ropp A K ->
+  forall (n : nat) (p : list (NoiseFreeRun.instr A)) (psi0 : state R), Forall (wf_instr n) p ->
+  Inv R rI rmul n (gscalar R rI rmul ropp A K p)
+      (s_f R (fold_left (nf_step R rO rI radd rmul ropp A K) p (s_one R rI psi0)))
+      (sem R radd rmul (run_items R rO rI radd rmul ropp A K p) psi0)
+      (sem R radd rmul (ideal_items R rO rI radd rmul ropp A K p) psi0).
+Proof. exact run_invariant. Qed.
+Print Assumptions C03_run_invariant.
+
+(* Born weights, basis state by basis state; conj_ok: cj multiplicative, cj 1 = 1, cj (-x) = - cj x, and cj of each unit
+   constant is its named inverse *)
+Theorem C03_noise_free_born_index :
+  forall (R : Type) (rO rI : R) (radd rmul rsub : R -> R -> R) (ropp : R -> R),
+  ring_theory rO rI radd rmul rsub ropp eq ->
+  forall (A : Type) (K : consts R A), consts_ok R rI rmul ropp A K ->
+  forall cj : R -> R, conj_ok R rI rmul ropp A K cj ->
+  forall (n : nat) (p : list (NoiseFreeRun.instr A)) (psi0 : state R), Forall (wf_instr n) p ->
+  forall b : list bool, List.length b = n ->
+  nrm R rmul cj (sem R radd rmul (run_items R rO rI radd rmul ropp A K p) psi0 b)
+  = nrm R rmul cj (sem R radd rmul (ideal_items R rO rI radd rmul ropp A K p) psi0 b).
+Proof. exact noise_free_born_index. Qed.
+Print Assumptions C03_noise_free_born_index.
+
+(* the builder model of BinaryCircuit (Model/Builders.v, C11), fed the framed matrices as the tokens of the method calls
+   X / SX / CNOT / ECR / Rz on internal indices, never raises, holds exactly run_items p, and BinaryBackend.statevector
+   (Model/Sparse.v, C02) returns its semantics *)
+Theorem C03_builder_backend_run :
+  forall (R : Type) (rO rI : R) (radd rmul rsub : R -> R -> R) (ropp : R -> R),
+  ring_theory rO rI radd rmul rsub ropp eq ->
+  forall (A : Type) (K : consts R A) (ph : A -> Z * Z) (n : nat) (layout : option (list Z))
+         (p : list (NoiseFreeRun.instr A)) (psi : list bool -> R),
+  Forall (wf_instr n) p ->
+  (exists s', bexec (mat R) (mid2 R rO rI) (b_init (mat R) n layout) (ops R rO rI radd rmul ropp A K ph p) = Ok (s', nil) /\
+     map (den R rO rI) (b_content (mat R) s') = run_items R rO rI radd rmul ropp A K p /\
+     Forall (wf_in R n) (b_content (mat R) s')) /\
+  (run_items R rO rI radd rmul ropp A K p <> nil ->
+   exists s' out, bexec (mat R) (mid2 R rO rI) (b_init (mat R) n layout) (ops R rO rI radd rmul ropp A K ph p) = Ok (s', nil) /\
+     bin_statevector R rO radd rmul (mat R) (mmul R radd rmul) (mkron R rmul) (mid2 R rO rI) (mid4 R rO rI) (entry_mat R rO)
+       n (b_content (mat R) s') psi = Ok out /\
+     state_eq R n out (sem R radd rmul (run_items R rO rI radd rmul ropp A K p) psi)).
+Proof.
+  intros R rO rI radd rmul rsub ropp Rth A K ph n layout p psi W. split.
+  - exact (builder_appends_run_items R rO rI radd rmul ropp A K ph n layout p W).
+  - exact (builder_backend_run R rO rI radd rmul rsub ropp Rth A K ph n layout p psi W).
+Qed.
+Print Assumptions C03_builder_backend_run.
+
+(* the builder's symbolic virtual phases ARE the frame: for every multiplicative reading E of the symbolic phases that
+   sends quarter turns to powers of i and the recorded rz angle to the rz factor *)
+Theorem C03_builder_phases_track :
+  forall (R : Type) (rO rI : R) (radd rmul rsub : R -> R -> R) (ropp : R -> R),
+  ring_theory rO rI radd rmul rsub ropp eq ->
+  forall (A : Type) (K : consts R A) (ph : A -> Z * Z) (E : Z * Z -> R),
+  (forall a b, E (padd a b) = rmul (E a) (E b)) -> E (quarter (-1)) = ropp (k_i K) -> E (quarter 1) = k_i K ->
+  E (quarter 2) = ropp rI -> (forall th, E (ph th) = k_e K th) -> E p0 = rI ->
+  forall (n : nat) (layout : option (list Z)) (p : list (NoiseFreeRun.instr A)) s',
+  Forall (wf_instr n) p ->
+  bexec (mat R) (mid2 R rO rI) (b_init (mat R) n layout) (ops R rO rI radd rmul ropp A K ph p) = Ok (s', nil) ->
+  forall j, (j < n)%nat ->
+  fst (fold_left (fstep R rO rI radd rmul ropp A K) p (ff_one R rI)) j = E (nth j (b_phi (mat R) s') p0).
+Proof.
+  intros R rO rI radd rmul rsub ropp Rth A K ph E h1 h2 h3 h4 h5 h6 n layout p s' W Ex.
+  exact (builder_phases_track R rO rI radd rmul rsub ropp Rth A K ph E h1 h2 h3 h4 h5 h6 n layout p s' W Ex).
+Qed.
+Print Assumptions C03_builder_phases_track.
+
+(* layered classes (adjacent pairs): the complete layers of a run mean the item list of the index class ... *)
+Theorem C03_run_layers_sem :
+  forall (R : Type) (rO rI : R) (radd rmul rsub : R -> R -> R) (ropp : R -> R),
+  ring_theory rO rI radd rmul rsub ropp eq ->
+  forall (A : Type) (K : consts R A) (n : nat) (p : list (NoiseFreeRun.instr A)) (psi : bits -> R),
+  Forall (wf_instr n) p -> Forall adjacent_instr p ->
+  forall b : bits, layers_sem R radd rmul (run_layers R rO rI radd rmul ropp A K n p) psi b
+                   = sem R radd rmul (run_items R rO rI radd rmul ropp A K p) psi b.
+Proof. exact run_layers_sem. Qed.
+Print Assumptions C03_run_layers_sem.
+
+(* ... are well-formed layers over n qubits (the hypothesis of C01_std_spec / C01_eff_spec_partial / C01_ones_spec) ... *)
+Theorem C03_run_layers_wf :
+  forall (R : Type) (rO rI : R) (radd rmul : R -> R -> R) (ropp : R -> R) (A : Type) (K : consts R A)
+         (n : nat) (p : list (NoiseFreeRun.instr A)),
+  Forall (wf_instr n) p -> Forall adjacent_instr p ->
+  Forall (wf_layer R n) (run_layers R rO rI radd rmul ropp A K n p).
+Proof. exact run_layers_wf. Qed.
+Print Assumptions C03_run_layers_wf.
+
+(* ... and have the ideal Born weights *)
+Theorem C03_noise_free_born_layered :
+  forall (R : Type) (rO rI : R) (radd rmul rsub : R -> R -> R) (ropp : R -> R),
+  ring_theory rO rI radd rmul rsub ropp eq ->
+  forall (A : Type) (K : consts R A) (cj : R -> R), consts_ok R rI rmul ropp A K -> conj_ok R rI rmul ropp A K cj ->
+  forall (n : nat) (p : list (NoiseFreeRun.instr A)) (psi0 : bits -> R),
+  Forall (wf_instr n) p -> Forall adjacent_instr p ->
+  forall b : list bool, List.length b = n ->
+  nrm R rmul cj (layers_sem R radd rmul (run_layers R rO rI radd rmul ropp A K n p) psi0 b)
+  = nrm R rmul cj (sem R radd rmul (ideal_items R rO rI radd rmul ropp A K p) psi0 b).
+Proof. exact noise_free_born_layered. Qed.
+Print Assumptions C03_noise_free_born_layered.
+
+(* (C) the instance at the complex numbers: KC = (i, 1/sqrt 2, e^{-i pi/4}, e^{-3i pi/4}, theta |-> e^{i theta}, e^{-i theta/2})
+       satisfies consts_ok, Cconj satisfies conj_ok; Born weights as squared moduli *)
+Require Import QG.Proofs.NoiseFreeRunC.
+From Coq Require Import Reals.
+From Coquelicot Require Import Complex.
+Local Close Scope R_scope.
+
+Theorem C03_complex_instance :
+  consts_ok C (RtoC 1) Cmult Copp Rdefinitions.R KC /\ conj_ok C (RtoC 1) Cmult Copp Rdefinitions.R KC Cconj /\
+  k_i KC = Ci /\ k_h KC = RtoC (/ sqrt 2)%R /\ k_w1 KC = cisR (- (PI / 4))%R /\ k_w3 KC = cisR (- (3 * PI / 4))%R /\
+  (forall th, k_e KC th = cisR th /\ k_a KC th = cisR (- (th / 2))%R).
+Proof. split; [exact KC_ok | split; [exact KC_conj | repeat split]]. Qed.
+Print Assumptions C03_complex_instance.
+
+Theorem C03_noise_free_born_C :
+  forall (n : nat) (p : list (NoiseFreeRun.instr Rdefinitions.R)) (psi0 : state C), Forall (wf_instr n) p ->
+  forall b : list bool, List.length b = n ->
+  (Cmod (sem C Cplus Cmult (run_items C (RtoC 0) (RtoC 1) Cplus Cmult Copp Rdefinitions.R KC p) psi0 b) ^ 2
+   = Cmod (sem C Cplus Cmult (ideal_items C (RtoC 0) (RtoC 1) Cplus Cmult Copp Rdefinitions.R KC p) psi0 b) ^ 2)%R.
+Proof. exact noise_free_born_C. Qed.
+Print Assumptions C03_noise_free_born_C.
+
+Theorem C03_noise_free_born_layered_C :
+  forall (n : nat) (p : list (NoiseFreeRun.instr Rdefinitions.R)) (psi0 : state C),
+  Forall (wf_instr n) p -> Forall adjacent_instr p ->
+  forall b : list bool, List.length b = n ->
+  (Cmod (layers_sem C Cplus Cmult (run_layers C (RtoC 0) (RtoC 1) Cplus Cmult Copp Rdefinitions.R KC n p) psi0 b) ^ 2
+   = Cmod (sem C Cplus Cmult (ideal_items C (RtoC 0) (RtoC 1) Cplus Cmult Copp Rdefinitions.R KC p) psi0 b) ^ 2)%R.
+Proof. exact noise_free_born_layered_C. Qed.
+Print Assumptions C03_noise_free_born_layered_C.
+
+(* ---- the seam between (R) and (G), proved (Proofs/NoiseFreeRunToken.v): the object the gate set returns — identified by
+        (R) as a complex matrix expression — is, entry by entry, the function-valued framed matrix that (G) uses as the
+        token of the method call: FrameSim.framed2 f q1 q2 gam K ui1 ui2 r c = gam * pb2 ui1 ui2 r * K r c * pb2 (f q1) (f q2) c
+        with slot frames f = exp(i old phase), inverse new frames ui = conjugates of exp(i new phase), K = gate2 of the same
+        table, gam = the table's global phase; likewise framed1 for X / SX ---- *)
+Require Import QG.Proofs.NoiseFreeRunToken.
+Theorem C03_token_is_framed :
+  forall h, In h gen_handoff -> forall k, kind2_of (h_meth h) = Some k -> forall rho a b, h_place h = [a; b] ->
+  let ch := choose2 k (h_lt h) in
+  let fo := fun s => interpC rho (cis (phi_old s)) in
+  let fn := fun s => interpC rho (cis (phi_new h s)) in
+  forall r c : bool * bool,
+  nth (idx2 c) (nth (idx2 r) (interpM rho (traced_matrix h)) nil) (RtoC 0)
+  = Cmult (Cmult (Cmult (gph_val C (RtoC 1) Copp Rdefinitions.R KC (c_gph ch)) (pb2 C (RtoC 1) Cmult (Cconj (fn a)) (Cconj (fn b)) r))
+                 (gate2 C (RtoC 0) (RtoC 1) Cplus Cmult Copp Rdefinitions.R KC k (c_ctl_slot ch) r c))
+          (pb2 C (RtoC 1) Cmult (fo a) (fo b) c).
+Proof. exact token_is_framed. Qed.
+Print Assumptions C03_token_is_framed.
+
+Theorem C03_token_is_framed1 :
+  forall h, In h gen_handoff -> forall k, kind1_of (h_meth h) = Some k -> forall rho,
+  let f := interpC rho (cis (phi_old 0)) in
+  forall r c : bool,
+  nth (b2n c) (nth (b2n r) (interpM rho (traced_one h k)) nil) (RtoC 0)
+  = Cmult (Cmult (Cmult (gph_val C (RtoC 1) Copp Rdefinitions.R KC (choose1 k)) (if r then Cconj f else RtoC 1))
+                 (gate1 C (RtoC 0) (RtoC 1) Cplus Cmult Copp Rdefinitions.R KC k r c))
+          (if c then f else RtoC 1).
+Proof. exact token_is_framed1. Qed.
+Print Assumptions C03_token_is_framed1.
+
+(* ---- what is NOT proved, stated in full ---- *)
+(* the layered builder state machine (Model/Builders.v: lstep, tied to circuit.py by C11's correspondence), fed the
+        calls the simulator issues per instruction (layered_ops: the gate on its qubit, I(k) on the others, nothing for
+        the target), stores exactly run_layers and is back at _s = 0 *)
+Definition C03_layered_builder_full : Prop :=
+  forall (R : Type) (rO rI : R) (radd rmul : R -> R -> R) (ropp : R -> R) (A : Type) (K : consts R A) (ph : A -> Z * Z)
+         (n : nat) (bk : backend_kind) (p : list (NoiseFreeRun.instr A)),
+  Forall (wf_instr n) p -> Forall adjacent_instr p ->
+  exists s', lexec (mat R) (mid2 R rO rI) (l_init (mat R) n bk) (layered_ops R rO rI radd rmul ropp A K ph n p) = Ok (s', nil) /\
+    map (map (ent_den R)) (l_content (mat R) s') = run_layers R rO rI radd rmul ropp A K n p /\ l_s (mat R) s' = 0%nat.
+
+(* non-vacuity: the reflection statements range over 16 two-qubit records; a 3-qubit program with a distant reversed
+   CNOT is well-formed for the index class, and C03_complex_instance discharges the hypotheses of the generic theorems *)
+Example C03_example : List.length (filter is_two gen_handoff) = 16%nat /\
+  Forall (@wf_instr Rdefinitions.R 3) [NoiseFreeRun.NRz 0 (1%R); NSX 0; NCX 2 0; NoiseFreeRun.NECR 1 2; NoiseFreeRun.NX 1].
+Proof. split; [vm_compute; reflexivity | repeat constructor; auto]. Qed.
